@@ -262,7 +262,7 @@ func feeTable(c *Ctx, m string, f *ssa.Function) {
 				t := t
 				if w.Guarded(f, in, func(p ir.Pred) bool {
 					return p.Pol && p.E.Op == "res" && p.E.Name == "1" && assertedMsgType(p.E) == t
-				}, 0) {
+				}, 2) {
 					guardT = t
 					cnt++
 				}
@@ -372,6 +372,7 @@ func feeTable(c *Ctx, m string, f *ssa.Function) {
 							if calleeIs(num, "NewInt") && len(num.Args) == 1 {
 								num = stripConvE(num.Args[0])
 							}
+							num = collectedFieldUnder(c, num, guardT)
 							okR := num.Op == "field" && num.Name == "Number" && assertedMsgType(num) == guardT
 							okA = okL && okR
 						}
@@ -770,4 +771,40 @@ func moduleOfTypeString(s string) string {
 		return rest[:j]
 	}
 	return ""
+}
+
+// collectedFieldUnder: num is a field of an element of a list collected beforehand by appends (`op.slots` with ops =
+// collectChargedOps(msgs)); under the guard "this element stands for a message of type guardT" its value is what the
+// appends standing under that type put there. Returns num unchanged when that is not its shape or the appends disagree.
+func collectedFieldUnder(c *Ctx, num *ir.Expr, guardT string) *ir.Expr {
+	w := c.W
+	if !(num.Op == "field" && len(num.Args) == 1 && num.Args[0].Op == "elem" && len(num.Args[0].Args) >= 1) {
+		return num
+	}
+	lst := num.Args[0].Args[0]
+	if lst.Op != "call" || lst.Callee == nil {
+		return num
+	}
+	items, ok := ir.BuiltItems(w.Expand(lst, 4))
+	if !ok {
+		return num
+	}
+	var got *ir.Expr
+	for _, it := range items {
+		g := it.Site.Parent()
+		if g == nil || !w.Guarded(g, it.Site, func(p ir.Pred) bool {
+			return p.Pol && p.E.Op == "res" && p.E.Name == "1" && assertedMsgType(p.E) == guardT
+		}, 0) {
+			continue
+		}
+		v := stripConvE(ir.FieldOf(it.Item, num.Name))
+		if got != nil && got.String() != v.String() {
+			return num
+		}
+		got = v
+	}
+	if got == nil {
+		return num
+	}
+	return got
 }
